@@ -163,7 +163,7 @@ let () =
   let seen : (int, unit) Hashtbl.t = Hashtbl.create 100000 in
   let known : (int, int * string) Hashtbl.t = Hashtbl.create 16 in   (* kf code -> count, first witness *)
   let mism_list = ref [] and viol_list = ref [] and bad_lines = ref [] in
-  let total = ref 0 and distinct = ref 0 in
+  let total = ref 0 and distinct = ref 0 and distinct_judged = ref 0 in
   let n_mism = ref 0 and n_viol = ref 0 and n_bad = ref 0 in
   (try
      while true do
@@ -187,7 +187,8 @@ let () =
              let h = Hashtbl.hash (name, args_s) in
              let h2 = Hashtbl.hash (args_s ^ name) in
              let key = h * 1073741827 + h2 in
-             if not (Hashtbl.mem seen key) then begin Hashtbl.add seen key (); incr distinct end;
+             let is_new = not (Hashtbl.mem seen key) in
+             if is_new then begin Hashtbl.add seen key (); incr distinct end;
              let e =
                match Hashtbl.find_opt entries name with
                | Some e -> e
@@ -214,6 +215,7 @@ let () =
                          mism_list := (line, string_of_val mo) :: !mism_list
                      end;
                      let code = int_of_n (e.M.e_verdict prop args out) in
+                     if is_new && code <> 2 then incr distinct_judged;
                      if code = 0 then st.holds <- st.holds + 1
                      else if code = 2 then st.unjudged <- st.unjudged + 1
                      else if code = 1 then begin
@@ -243,7 +245,7 @@ let () =
    | None -> ());
   let oc = open_out out_path in
   let pr fmt = Printf.fprintf oc fmt in
-  pr "{\n \"evaluations\": %d,\n \"distinct\": %d,\n \"mismatches\": %d,\n \"violations\": %d,\n \"bad_lines\": %d,\n" !total !distinct !n_mism !n_viol !n_bad;
+  pr "{\n \"evaluations\": %d,\n \"distinct\": %d,\n \"distinct_judged\": %d,\n \"mismatches\": %d,\n \"violations\": %d,\n \"bad_lines\": %d,\n" !total !distinct !distinct_judged !n_mism !n_viol !n_bad;
   pr " \"entries\": {";
   let first = ref true in
   Hashtbl.iter (fun name st ->
